@@ -666,6 +666,38 @@ func (w *world) validLTX(name string) []byte {
 	return buf.Bytes()
 }
 
+// snapshotLTX is a complete image of the database as one transaction file 1..pos+1 (uncompressed,
+// so that a flipped bit is a checksum mismatch and not a framing error).
+func (w *world) snapshotLTX(name string) []byte {
+	ps := int(w.p.PageSize)
+	img, pos := w.dbImage(name)
+	if len(img) < ps {
+		img, pos = w.dbImage("db")
+	}
+	var buf bytes.Buffer
+	enc := ltx.NewEncoder(&buf)
+	must := func(err error) {
+		if err != nil {
+			core.Infra("cannot build LTX input: %v", err)
+		}
+	}
+	must(enc.EncodeHeader(ltx.Header{Version: 1, PageSize: uint32(ps), Commit: uint32(len(img) / ps), MinTXID: 1, MaxTXID: pos.TXID + 1,
+		Timestamp: time.Now().UnixMilli(), NodeID: w.p.Foreign}))
+	var sum ltx.Checksum
+	lock := ltx.LockPgno(uint32(ps))
+	for i := 0; i+ps <= len(img); i += ps {
+		pgno := uint32(i/ps) + 1
+		if pgno == lock {
+			continue
+		}
+		must(enc.EncodePage(ltx.PageHeader{Pgno: pgno}, img[i:i+ps]))
+		sum ^= ltx.ChecksumPage(pgno, img[i:i+ps])
+	}
+	enc.SetPostApplyChecksum(ltx.ChecksumFlag | sum)
+	must(enc.Close())
+	return buf.Bytes()
+}
+
 func (w *world) body(r req) []byte {
 	ps := int(w.p.PageSize)
 	seed := w.p.Seed*7919 + int64(len(r.Ep))*131 + int64(len(r.Pc))
@@ -704,6 +736,10 @@ func (w *world) body(r req) []byte {
 		case "oversized": // header announces 64 KiB pages, a few hundred bytes follow
 			b := w.validLTX(name)
 			binary.BigEndian.PutUint32(b[8:], 65536)
+			return b
+		case "snapdamaged": // a snapshot (first TXID 1) reaching one past the position, one bit of a page flipped
+			b := w.snapshotLTX(name)
+			b[len(b)-ltx.TrailerSize-ps/2] ^= 0x10
 			return b
 		}
 		return nil
